@@ -12,8 +12,11 @@ Nothing is ever committed to /repo.
 import json, os, subprocess, sys, shutil, time
 
 V = os.path.dirname(os.path.dirname(os.path.abspath(__file__)))
-os.makedirs("/tmp/seed_tmp", exist_ok=True)
-ENV = dict(os.environ, CARGO_NET_OFFLINE="true", TMPDIR="/tmp/seed_tmp")
+TMPD = os.environ.get("SEED_TMPDIR", "/tmp/seed_tmp")
+os.makedirs(TMPD, exist_ok=True)
+ENV = dict(os.environ, CARGO_NET_OFFLINE="true", TMPDIR=TMPD)
+# SEED_EVAL_NO_CHECKS=1: confirm and store only; the verdicts are filled in later by tools/seed_recheck.py --update-meta
+NO_CHECKS = os.environ.get("SEED_EVAL_NO_CHECKS") == "1"
 
 
 def sh(cmd, cwd, timeout=3600):
@@ -56,6 +59,17 @@ def main():
         for r in ran:
             print("  ", r)
         return 1
+    if NO_CHECKS:
+        d = os.path.join(V, "seeded", name)
+        os.makedirs(d, exist_ok=True)
+        shutil.copy(patch, os.path.join(d, "patch.diff"))
+        shutil.copy(demo, os.path.join(d, "demo.rs"))
+        needs = open(meta_txt).read() if os.path.exists(meta_txt) else ""
+        verdicts = {p: {"exit": -1, "detected": False, "signatures": [], "pending": True} for p in props}
+        meta = {"name": name, "breaks_property": target, "needs_to_manifest": needs, "confirmed": res, "what_was_run": ran, "check_verdicts": verdicts, "caught_by": []}
+        json.dump(meta, open(os.path.join(d, "meta.json"), "w"), indent=1)
+        print("stored (verdicts pending)", d)
+        return 0
     # run the checks against /repo with the change applied
     rc, out = sh("git status --porcelain", "/repo")
     if out.strip():
